@@ -348,6 +348,11 @@ def run(tier='quick'):
                         'otherwise a second create leaves both layouts in the directory, load reports "not found" and '
                         'create-or-load creates over a library)', floor=2)
     c16.creators_refuse_existing(prog, cg, eff, chk, N7)
+    N8 = chk.rule('N8', 'only the transaction guard class issues transaction-control statements (BEGIN / COMMIT / ROLLBACK / '
+                        'SAVEPOINT / RELEASE): a hand-written SAVEPOINT ... ROLLBACK TO elsewhere leaves the transaction open '
+                        'after a failure, and everything done afterwards is lost when the handles are released', floor=3)
+    from . import extra as _extra
+    _extra.transaction_control_only_in_guard(prog, cg, eff, chk, N8)
     return chk.finish('declarations of %d handle / table / context classes, all statement sites, symbolic paths of '
                       'the open / attach sites of the create and load sides, transaction path analysis, version '
                       'constants of the creators' % len(STATELESS + CONTEXT))
